@@ -53,6 +53,7 @@ func cmdRun(args []string) int {
 	mapOrder := fs.Int("maporder", 0, "map iteration order exploration (0 insertion, 1 rotations, n permutations up to n keys)")
 	cross := fs.Bool("crosscheck", false, "re-decide assertion queries with z3-new and cvc5")
 	redirectsFile := fs.String("redirects", "", "redirect table (JSON: callee -> harness function)")
+	extraInterp := fs.String("interp", "", "comma separated extra package paths interpreted from source")
 	cpuprof := fs.String("cpuprofile", "", "write CPU profile")
 	var params multiFlag
 	fs.Var(&params, "param", "K=V harness parameter (repeatable)")
@@ -97,6 +98,11 @@ func cmdRun(args []string) int {
 	if err != nil {
 		fmt.Fprintln(os.Stderr, "load:", err)
 		return 2
+	}
+	for _, x := range strings.Split(*extraInterp, ",") {
+		if x != "" {
+			eng.extraInterp[x] = true
+		}
 	}
 	if *redirectsFile != "" {
 		if err := eng.loadRedirects(*redirectsFile, *pkg); err != nil {
@@ -158,12 +164,11 @@ func (e *Engine) setRedirects(tbl map[string]string, pkgPath string) error {
 			tp, tn = target[:i], target[i+1:]
 		}
 		tf := e.findFunc(tp, tn)
+		if _, ok := idx[callee]; !ok && tf == nil {
+			continue // neither the callee nor its stub is part of this program
+		}
 		if tf == nil {
 			return fmt.Errorf("redirect target %s.%s not found", tp, tn)
-		}
-		if _, ok := idx[callee]; !ok {
-			// callee may legitimately be absent from the build (never referenced); only warn
-			fmt.Fprintf(os.Stderr, "warning: redirect source %s not found in program\n", callee)
 		}
 		e.redirects[callee] = tf
 	}
